@@ -210,6 +210,15 @@ def real_now():
     return procs.real_time()
 
 
+def os_level_failure(rc, err):
+    """A real subprocess that did not complete for reasons that say nothing about the code under test."""
+    if rc is None or rc in (-9, -15, 137, 143):
+        return True
+    e = err or ""
+    return any(k in e for k in ("BlockingIOError", "MemoryError", "Cannot allocate memory", "Resource temporarily unavailable",
+                                "Too many open files", "No space left on device")) or "Traceback" not in e
+
+
 def run_process_group(cmd, timeout, env_=None, cwd=None):
     """Run a real subprocess in its own session and ALWAYS kill the whole process group afterwards,
     so that worker processes a (possibly broken) tree leaves behind cannot outlive the check.
